@@ -5,20 +5,29 @@ from ..runner import Case, Property
 
 class C07(Property):
     id = "C07"
-    lean_module = "RosuModel.Props.C07"
+    lean_module = "RosuModel.Props.C07Finish"   # imports Props/C07.lean; both files are in namespace Rosu.C07
     namespace = "Rosu.C07"
     design_ref = "5.7"
     required_theorems = ["frame_proj", "hitObjects_agree", "editor_agree", "metadata_agree", "colors_agree", "timingPoints_agree",
-                         "difficulty_agree", "events_agree", "general_agree", "decoders_agree_bytes", "general_in_beatmap"]
-    partial_theorems = {
-        "finalisers": "the state-level agreement is proved for every input; that the Rust `From<BeatmapState> for Beatmap` applies the same four sub-finalisers "
-                      "and copies their fields is by construction of Model/Finalize.lean (BeatmapState.finish calls HitObjectsState.finish) and is compared field by field on every run",
-    }
+                         "difficulty_agree", "events_agree", "general_agree", "decoders_agree_bytes", "general_in_beatmap",
+                         # Props/C07Finish.lean: the finalised values
+                         "sched_hitObjects", "sched_editor", "sched_metadata", "sched_colors", "sched_timingPoints", "sched_difficulty",
+                         "sched_events", "sched_general", "beatmap_finish_hitObjects", "beatmap_finish_fields", "hitObjects_finish_fields",
+                         "timingPoints_finish_general", "hitObjects_value_agrees", "finished_values_state", "finished_values_agree",
+                         "finished_values_agree_bytes"]
+    partial_theorems = {}
     level_text = ("Lean 4 theorems: for every list of lines and every delivery schedule, the state of each specialised decoder (General, Editor, Metadata, Difficulty, "
                   "Events, Colours, TimingPoints, HitObjects) is exactly the corresponding projection of the full Beatmap decoder's state (frame_proj: a projection that commutes "
                   "with creation and with every per-section step commutes with the whole framing driver, by induction over the lines; instantiated along the delegation chain "
                   "Beatmap ▸ HitObjects ▸ TimingPoints ▸ General). The model is one decoder; the differential run shows all nine Rust decoders equal to it on every generated file "
-                  "(canonical dumps, floats by bits), and the harness oracle compares the nine real decoders with each other group by group.")
+                  "(canonical dumps, floats by bits), and the harness oracle compares the nine real decoders with each other group by group. "
+                  "Props/C07Finish.lean lifts this to the RETURNED VALUES, finalisers applied (finished_values_agree, for every delivery schedule and, as finished_values_agree_bytes, every byte input): "
+                  "from_bytes::<HitObjects> returns exactly the HitObjects part of what from_bytes::<Beatmap> returns — the same I/O error, or the same finaliser failure (the model's "
+                  "HitObjectsState.finish can end in panic / fuel-exhausted, depending on mode and curves; BeatmapState.finish fails iff it does, with the same error), or the same general / difficulty / "
+                  "events / control points / finalised hit objects (hitObjects_value_agrees); an I/O error of the full decoder is the result of all eight; and whenever the full decoder returns a Beatmap m, "
+                  "TimingPoints returns (m.general, m.controlPoints) and General / Editor / Metadata / Difficulty / Events / Colours return m's sections (finalisers unfolded: beatmap_finish_fields, "
+                  "hitObjects_finish_fields, timingPoints_finish_general). That the Rust `From<…State>` impls are the modelled finalisers is by construction of Model/Finalize.lean and compared field by field "
+                  "(`dec9`) on every run.")
     technique = "Lean 4 proof (simulation by projection, induction over lines) + nine-decoder differential correspondence"
     trusted_base = [
         "Lean 4.33.0 kernel; axioms ⊆ {propext, Classical.choice, Quot.sound} per #print axioms",
